@@ -3,6 +3,7 @@ module verifharness26
 go 1.26.8
 
 require (
+	a0quiet v0.0.0
 	github.com/google/go-tdx-guest v0.0.0
 	github.com/google/logger v1.1.1
 	pgregory.net/rapid v1.3.0
@@ -18,3 +19,5 @@ require (
 replace github.com/google/go-tdx-guest => /repo
 
 replace verifharness => ../harness
+
+replace a0quiet => ../harness/quiet
